@@ -69,6 +69,9 @@ Fixpoint lsub (n m : list nat) : list nat :=
   | _, _ => []
   end.
 
+(** cost(orders) = prod (i + 1)^2 *)
+Definition cost (m : list nat) : nat := fold_left (fun a i => a * ((i + 1) * (i + 1))) m 1.
+
 (** the iteration space of product_by_order: (middle, orders_1st) *)
 Definition pbo_space (nb : nat) (n : list nat) : list (nat * list nat) :=
   flat_map (fun mid => map (pair mid) (splits n)) (seq 0 nb).
@@ -184,12 +187,38 @@ Section Interp.
       | (mid, m1) :: r =>
           let i1 := (idx_i idx, mid, m1) in
           let i2 := (mid, idx_j idx, lsub (idx_n idx) m1) in
-          match sub k1 i1, sub k2 i2 with
-          | Some a, Some b => iprod_loop k1 k2 r (vadd O acc (vmul O a b))
-          | Some a, None => if vis0 O a then iprod_loop k1 k2 r acc else None
-          | None, Some b => if vis0 O b then iprod_loop k1 k2 r acc else None
-          | None, None => None
-          end
+          let next := iprod_loop k1 k2 r in
+          (* the order in which the two factors are looked at is semantically irrelevant
+             (the definition is symmetric up to 0 * x = x * 0 = 0); looking first at the
+             factor of lower order keeps the definition executable on recurrences *)
+          if Nat.leb (cost m1) (cost (lsub (idx_n idx) m1)) then
+            match sub k1 i1 with
+            | Some a =>
+                if vis0 O a then next acc
+                else match sub k2 i2 with
+                     | Some b => next (vadd O acc (vmul O a b))
+                     | None => None
+                     end
+            | None =>
+                match sub k2 i2 with
+                | Some b => if vis0 O b then next acc else None
+                | None => None
+                end
+            end
+          else
+            match sub k2 i2 with
+            | Some b =>
+                if vis0 O b then next acc
+                else match sub k1 i1 with
+                     | Some a => next (vadd O acc (vmul O a b))
+                     | None => None
+                     end
+            | None =>
+                match sub k1 i1 with
+                | Some a => if vis0 O a then next acc else None
+                | None => None
+                end
+            end
       end.
 
     Definition iprod (k1 k2 : key) : option V :=
